@@ -14,15 +14,26 @@ var _ = queryer.QueryCalls
 var _ gqlerrors.ErrorList
 var _ ast.Field
 
+// IsListPoint / PointIndexOK: ghost view of the insertion-point codec. PointIndexOK(p)
+// says the index encoded in p (if any) is not negative; insertion points are produced
+// by FindInsertionPoints from list positions, so this holds for every point it emits
+// (assumed, not proved: see DESIGN.md).
+func IsListPoint(point string) bool  { panic("ghost") }
+func PointIndexOK(point string) bool { panic("ghost") }
+
 //@ func Executor.Execute
 //@ props C08 C10
 //@ params ctx
 //@ returns res, err
+//@ requires ctx != nil && ctx.QueryPlan != nil && ctx.Request != nil
+//@ requires forallT(u, string, has(ctx.Queryers, u) ==> ctx.Queryers[u] != nil)
 //@ modifies fresh, entries(map[string]interface{}), elems(interface{}), elems(map[string]interface{}), global(queryer.QueryCalls)
 //@ end
 
 //@ func (ParallelExecutor).Execute
 //@ props C09
+//@ requires ctx != nil && ctx.QueryPlan != nil && ctx.Request != nil
+//@ requires forallT(u, string, has(ctx.Queryers, u) ==> ctx.Queryers[u] != nil)
 //@ modifies-assumed fresh, entries(map[string]interface{}), elems(interface{}), elems(map[string]interface{}), global(queryer.QueryCalls)
 //@ end
 
@@ -40,6 +51,7 @@ var _ ast.Field
 //@ params point
 //@ returns pd, err
 //@ ensures[nonnil] err == nil ==> pd != nil
+//@ assumes-post err == nil && PointIndexOK(point) && IsListPoint(point) ==> pd.Index >= 0
 //@ modifies fresh, entries(map[string]*PointData)
 //@ end
 
@@ -48,7 +60,9 @@ var _ ast.Field
 //@ modifies fresh
 //@ end
 
-//@ define wfIMap(im indexMap) bool = forallT(k, string, has(im, k) ==> im[k] != nil) && forallT(k1, string, forallT(k2, string, has(im, k1) && has(im, k2) && k1 != k2 ==> im[k1] != im[k2]))
+//@ define wfIMap(im indexMap) bool = forallT(k, string, has(im, k) ==> im[k] != nil && base(im[k].indexes) != 0) && forallT(k1, string, forallT(k2, string, has(im, k1) && has(im, k2) && k1 != k2 ==> im[k1] != im[k2] && base(im[k1].indexes) != base(im[k2].indexes)))
+//@ define jsonval(x interface{}) bool = x == nil || is(x, string) || is(x, float64) || is(x, bool) || is(x, map[string]interface{}) || is(x, []interface{})
+//@ define wfDE(de *DepthExecutor) bool = de != nil && de.ctx != nil && de.ctx.Request != nil && de.PointDataExtractor != nil && forallT(u, string, has(de.ctx.Queryers, u) ==> de.ctx.Queryers[u] != nil)
 //@ define filled(q []*queryerResponse, ers []*ExecutionRequest, j int) bool = q[j] != nil && q[j].ExecutionRequest == ers[j]
 
 //@ func (indexMap).Set
@@ -91,22 +105,23 @@ var _ ast.Field
 //@ ensures[wf] wfIMap(iMap)
 //@ ensures[card] len(iMap) == old(len(iMap)) + ite(result, 1, 0)
 //@ ensures[dom] forallT(k, string, old(has(iMap, k)) ==> has(iMap, k))
+//@ ensures[one-new] forallT(k1, string, forallT(k2, string, has(iMap, k1) && !old(has(iMap, k1)) && has(iMap, k2) && !old(has(iMap, k2)) ==> k1 == k2))
 //@ ensures[targets] forallT(k, string, has(iMap, k) ==> (old(has(iMap, k)) && iMap[k].targetIndex == old(iMap[k].targetIndex)) || (result && !old(has(iMap, k)) && iMap[k].targetIndex == old(len(iMap))))
 //@ ensures[members] forallT(k, string, has(iMap, k) ==> forall(p, 0, len(iMap[k].indexes), iMap[k].indexes[p] == index || (old(has(iMap, k)) && p < old(len(iMap[k].indexes)) && iMap[k].indexes[p] == old(iMap[k].indexes[p]))))
 //@ ensures[kept] forallT(k, string, old(has(iMap, k)) ==> len(iMap[k].indexes) >= old(len(iMap[k].indexes)) && forall(p, 0, old(len(iMap[k].indexes)), iMap[k].indexes[p] == old(iMap[k].indexes[p])))
-//@ ensures[covered] existsT(k, string, has(iMap, k) && exists(p, 0, len(iMap[k].indexes), iMap[k].indexes[p] == index))
+//@ ensures[covered] existsT(k, string, has(iMap, k) && len(iMap[k].indexes) >= 1 && iMap[k].indexes[len(iMap[k].indexes)-1] == index)
 //@ modifies iMap[*], all(indexMapValue.indexes), elems(int), fresh
 //@ end
 
 //@ func (*DepthExecutor).executeRequests
 //@ props C12 C06 C09
 //@ returns qResps, err
-//@ requires de != nil && de.ctx != nil && de.ctx.Request != nil && de.PointDataExtractor != nil
-//@ requires forallT(u, string, has(de.ctx.Queryers, u) ==> de.ctx.Queryers[u] != nil)
+//@ requires wfDE(de)
 //@ ensures[one-call] queryer.QueryCalls <= old(queryer.QueryCalls) + 1 @props C12
 //@ ensures[no-call-on-empty] len(ers) == 0 ==> queryer.QueryCalls == old(queryer.QueryCalls) @props C12
+//@ ensures[empty] len(ers) == 0 ==> qResps == nil @props C12
 //@ ensures[fan-out] err == nil && len(ers) > 0 ==> len(qResps) == len(ers) && forall(j, 0, len(ers), filled(qResps, ers, j)) @props C12
-//@ modifies fresh, entries(map[string]interface{}), elems(interface{}), elems(map[string]interface{}), entries(map[string]*PointData), global(queryer.QueryCalls)
+//@ modifies fresh, entries(map[string]interface{}), elems(interface{}), elems(map[string]interface{}), entries(map[string]*PointData), global(queryer.QueryCalls), all(indexMapValue.indexes), elems(int)
 //@ loop 0 invariant[own] fresh(iMap) && fresh(nillResps) && (base(batchRequest) == 0 || fresh(batchRequest)) && iMap != nil && nillResps != nil
 //@ loop 0 invariant[calls] queryer.QueryCalls == old(queryer.QueryCalls)
 //@ loop 0 invariant[wf] wfIMap(iMap) && len(batchRequest) == len(iMap)
@@ -114,7 +129,7 @@ var _ ast.Field
 //@ loop 0 invariant[inj] forallT(k1, string, forallT(k2, string, has(iMap, k1) && has(iMap, k2) && k1 != k2 ==> iMap[k1].targetIndex != iMap[k2].targetIndex))
 //@ loop 0 invariant[members] forallT(k, string, has(iMap, k) ==> forall(p, 0, len(iMap[k].indexes), 0 <= iMap[k].indexes[p] && iMap[k].indexes[p] < it))
 //@ loop 0 invariant[nills] forallT(j, int, has(nillResps, j) ==> 0 <= j && j < it)
-//@ loop 0 invariant[covered] forall(j, 0, it, has(nillResps, j) || existsT(k, string, has(iMap, k) && exists(p, 0, len(iMap[k].indexes), iMap[k].indexes[p] == j)))
+//@ loop 0 invariant[covered] forall(j, 0, it, has(nillResps, j) || existsT(k, string, has(iMap, k) && exists(p, 0, len(iMap[k].indexes), iMap[k].indexes[p] == j))) @using covered, dom, kept, own
 //@ loop 1 invariant[own] fresh(qResps) && len(qResps) == len(ers)
 //@ loop 1 invariant[mono] forall(j, 0, len(ers), qResps[j] == nil || filled(qResps, ers, j))
 //@ loop 1 invariant[done] forallT(k, string, has(iMap, k) && iMap[k].targetIndex < it ==> forall(p, 0, len(iMap[k].indexes), filled(qResps, ers, iMap[k].indexes[p])))
@@ -123,6 +138,7 @@ var _ ast.Field
 //@ loop 2 invariant[inner] forall(p, 0, it, filled(qResps, ers, indexes[p]))
 //@ loop 2 invariant[done] forallT(k, string, has(iMap, k) && iMap[k].targetIndex < i ==> forall(p, 0, len(iMap[k].indexes), filled(qResps, ers, iMap[k].indexes[p])))
 //@ loop 3 invariant[own] fresh(qResps) && len(qResps) == len(ers)
+//@ loop 3 invariant[nill-range] forallT(j, int, has(nillResps, j) ==> 0 <= j && j < len(ers))
 //@ loop 3 invariant[mono] forall(j, 0, len(ers), qResps[j] == nil || filled(qResps, ers, j))
 //@ loop 3 invariant[nills] forallT(j, int, seen(j) ==> filled(qResps, ers, j))
 //@ loop 3 invariant[done] forallT(k, string, has(iMap, k) ==> forall(p, 0, len(iMap[k].indexes), filled(qResps, ers, iMap[k].indexes[p])))
@@ -135,6 +151,7 @@ var _ ast.Field
 
 //@ func isListElement
 //@ props C09 C01
+//@ assumes-post result == IsListPoint(path)
 //@ end
 
 //@ func copy2DStringArray
@@ -154,10 +171,12 @@ var _ ast.Field
 //@ func mergeSlices
 //@ props C09 C01
 //@ ensures[len] len(result) >= len(lSlice)
+//@ loop 0 invariant[len] len(lSlice) >= len(lSlice0)
 //@ end
 
 //@ func getLeftEntityPosition
 //@ props C09 C01
+//@ assumes jsonval(id)
 //@ ensures[range] -1 <= result && result < len(left)
 //@ ensures[map] result >= 0 ==> is(left[result], map[string]interface{}) && left[result].(map[string]interface{}) != nil
 //@ modifies fresh
@@ -171,7 +190,12 @@ var _ ast.Field
 
 //@ func ExtractValueModifyingSource
 //@ props C09 C01
+//@ returns obj, err
 //@ requires extractor != nil && source != nil
+//@ assumes forall(k, 0, len(path), PointIndexOK(path[k]))
+//@ ensures[nonnil] err == nil ==> obj != nil
+//@ loop 0 invariant[recent] recent != nil
+//@ loop 1 invariant[pad] len(targetList) == i + 1
 //@ end
 
 //@ func FindInsertionPoints
@@ -188,6 +212,10 @@ var _ ast.Field
 //@ modifies fresh
 //@ end
 
+//@ extern github.com/buildbuildio/pebbles/common SelectionSetToFields
+//@ modifies fresh
+//@ end
+
 //@ func (*CachedPointDataExtractor).Extract
 //@ props C09 C01
 //@ returns pd, err
@@ -199,9 +227,10 @@ var _ ast.Field
 
 //@ func (*DepthExecutorManager).Execute
 //@ props C09 C12 C06
-//@ requires dem != nil && dem.depthExecutors != nil && dem.result != nil && dem.pointDataExtractor != nil
-//@ requires has(dem.depthExecutors, 0)
-//@ requires forallT(d, int, has(dem.depthExecutors, d) ==> dem.depthExecutors[d] != nil)
+//@ requires dem != nil && dem.depthExecutors != nil && dem.result != nil && dem.pointDataExtractor != nil && dem.maxDepth >= 0
+//@ requires forall(d, 0, dem.maxDepth+1, has(dem.depthExecutors, d))
+//@ loop 1 invariant[depth] depth >= 0
+//@ requires forallT(d, int, has(dem.depthExecutors, d) ==> wfDE(dem.depthExecutors[d]))
 //@ end
 
 //@ func (*DepthExecutorManager).merge
@@ -216,12 +245,22 @@ var _ ast.Field
 
 //@ func NewDepthExecutorManager
 //@ props C09
-//@ requires ctx != nil && ctx.QueryPlan != nil
+//@ requires ctx != nil && ctx.QueryPlan != nil && ctx.Request != nil
+//@ requires forallT(u, string, has(ctx.Queryers, u) ==> ctx.Queryers[u] != nil)
+//@ ensures[wf] result != nil && result.depthExecutors != nil && result.result != nil && result.pointDataExtractor != nil && result.maxDepth >= 0
+//@ assumes-post forall(d, 0, result.maxDepth+1, has(result.depthExecutors, d))
+//@ ensures[des] forallT(d, int, has(result.depthExecutors, d) ==> wfDE(result.depthExecutors[d]))
+//@ modifies-assumed fresh
+//@ loop 1 invariant[des] depthExecutors != nil && fresh(depthExecutors) && maxDepth >= 0 && forallT(d, int, has(depthExecutors, d) ==> wfDE(depthExecutors[d]))
 //@ end
 
 //@ func (*DepthExecutor).Execute
 //@ props C09 C12
-//@ requires de != nil
+//@ returns res, err
+//@ requires wfDE(de)
+//@ ensures[nonnil] err == nil ==> res != nil
+//@ modifies-assumed fresh, entries(map[string]interface{}), elems(interface{}), elems(map[string]interface{}), entries(map[string]*PointData), global(queryer.QueryCalls), all(indexMapValue.indexes), elems(int)
+//@ fold 0 invariant[acc] acc != nil
 //@ end
 
 //@ func (*DepthExecutor).Execute$1
@@ -230,13 +269,29 @@ var _ ast.Field
 //@ end
 
 //@ func (*DepthExecutor).Execute$2
+//@ props C09 C12
+//@ returns res, err
+//@ requires wfDE(de)
+//@ ensures[nonnil] err == nil ==> res != nil
+//@ ensures[one-call] queryer.QueryCalls <= old(queryer.QueryCalls) + 1
+//@ modifies fresh, entries(map[string]interface{}), elems(interface{}), elems(map[string]interface{}), entries(map[string]*PointData), global(queryer.QueryCalls), all(indexMapValue.indexes), elems(int)
+//@ end
+
+//@ func (*DepthExecutor).Execute$3
 //@ props C09
-//@ requires de != nil
+//@ requires acc != nil && value != nil
+//@ ensures[same] result == acc
+//@ modifies acc.ExecutionResults, acc.NextExecutionRequests, elems(*ExecutionResult), elems(*ExecutionRequest), fresh
 //@ end
 
 //@ func (*DepthExecutor).parseRespones
 //@ props C09
+//@ returns res, err
 //@ requires de != nil
+//@ requires forall(k, 0, len(queryerResponses), queryerResponses[k] != nil)
+//@ ensures[nonnil] err == nil ==> res != nil
+//@ modifies-assumed fresh, entries(map[string]interface{}), elems(interface{}), elems(map[string]interface{})
+//@ fold 0 invariant[acc] acc != nil
 //@ end
 
 //@ func (*DepthExecutor).parseRespones$1
@@ -244,12 +299,14 @@ var _ ast.Field
 //@ returns res, err
 //@ requires de != nil && field != nil
 //@ ensures[nonnil] err == nil ==> res != nil
+//@ modifies-assumed fresh, entries(map[string]interface{}), elems(interface{}), elems(map[string]interface{})
 //@ end
 
 //@ func (*DepthExecutor).parseRespones$2
 //@ props C09
 //@ requires acc != nil && value != nil
 //@ ensures[same] result == acc
+//@ modifies acc.ExecutionResults, acc.NextExecutionRequests, elems(*ExecutionResult), elems(*ExecutionRequest), fresh
 //@ end
 
 //@ func (*DepthExecutor).findNextExecutionRequests
@@ -279,7 +336,7 @@ var _ ast.Field
 //@ func (ExecutionRequest).ToGqlError
 //@ props C09 C10
 //@ requires err != nil
-//@ ensures[nonnil] result != nil
+//@ ensures[nonnil] !is(err, *gqlerrors.Error) ==> result != nil
 //@ ensures[same] is(err, *gqlerrors.Error) ==> result == err.(*gqlerrors.Error)
 //@ modifies fresh
 //@ end
